@@ -11,6 +11,15 @@ NOTE = ("Trusted: Coq 8.16.1 kernel + vm_compute (no native_compute; coqchk in t
         "implementation. Modelled-not-verified: CPython primitives, re, json, hashlib, sockets, threads, time (DESIGN.md sections 3-4).")
 
 CHECKS = {
+    'C01': dict(technique='Coq: KEXINIT parse(write k)=k for all well-formed messages, shown-names = advertised-names theorems for the text and JSON views of the report model, SSH-1 mask decoding for every mask (induction); wire-to-report correspondence; CLI oracle in server and client role',
+                text='Theorems: parsing an encoded KEXINIT returns exactly its lists; per category the text report shows the advertised non-blank names once per occurrence in order, JSON shows every advertised name; no cross-category move; gss-*/size suffixes keep the advertised name as prefix; for every mask the SSH-1 names are the table entries with the bit set, in table order. Oracle: real CLI over TCP as server audit and client audit (-c), plain/batch/verbose/JSON, database/unknown/gss/duplicate/empty/4kB/non-UTF-8 names, compression and banner as sent, SSH-1 masks with -1.',
+                ref='DESIGN.md section 5 C01'),
+    'C06': dict(technique='Coq: forall-theorems (induction, lia) over a hand-written model of Policy.evaluate/_get_errors incl. the error accumulator; spec satisfies/error_for written from the statement; model tied to the code by vm_compute case files over the exhaustively enumerated small universe; independent Python oracle; in-process and -P CLI wiring runs',
+                text='Theorems for all policies and peers: passed <-> satisfies; passed <-> no errors; reported errors are exactly the specified-and-unsatisfied fields with the policy\'s expected and the peer\'s actual value (CA type before CA size); accumulator only appends; subset-shrink and larger-keys-grow monotonicity; error text has one block per error naming its field. Correspondence: every pair of the small universe one focus field at a time (69k pairs thorough; slice in quick) + random large instances incl. text-loaded policies and re-used objects. Known finding: one-element int-like names are shown through int() in the error text (refuted + partial theorem).',
+                ref='DESIGN.md section 5 C06'),
+    'C16': dict(technique='Coq: theorems for all lines of the banner grammar over hand-written recognisers of RX_BANNER / the product expressions (induction over strings; character-class preservation through the parser); recognisers tied to re by vm_compute case files against in-process Banner.parse / Software.parse / get_banner; statement-based Python oracle',
+                text='For every SSH-<d>.<digits>-<token>[ words] line with any blank gaps: accepted, parts equal the line (exact side condition absorbs), render/re-parse stable, shown text printable and flag = no replacement, header/banner separation over lines and CR LF/LF streams, product+version for all ten families. Refuted and recorded: protocol-looking software tokens (two shapes). The regex engine is not modelled; 7.9k (quick) / 251k (thorough) differential cases carry that link.',
+                ref='DESIGN.md section 5 C16'),
     'C15': dict(technique='Coq: subsequence theorem for every write-free program of OutputBuffer operations (induction over programs; insertion-sort lemma for sorted sections, String.leb transitivity proved), model tied to outputbuffer.py by random-program correspondence; oracle over all option sets, JSON variants and hash seeds',
                 text='Theorems: raising the minimum level yields a subsequence of the lower-level report for every program of lines/sections/heads/separators/sorted sections (also instantiated for code-point sorting); lines at or above the level are never removed; status is a function of items only. Refuted-and-recorded: immediate writes add a blank line. Oracle: status and findings identical under 2x2x2x3 option sets, JSON compact=indented=-l fail, JSON findings=text findings, byte identity across PYTHONHASHSEED values (observed, not proved).',
                 ref='DESIGN.md section 5 C15'),
